@@ -94,7 +94,7 @@ structure Knobs where
   deriving DecidableEq, Repr
 
 /-- what the code at the pinned commit does -/
-def pinnedKnobs : Knobs := ⟨true, true, 4, 0⟩     -- AFTER-FIX: ⟨false, true, 4, 0⟩  (F1: `<=` → `<`)
+def pinnedKnobs : Knobs := ⟨false, true, 4, 0⟩     -- F1 repaired in /repo (`<=` → `<`, commit 8a3f55a); before the fix: ⟨true, true, 4, 0⟩
 
 /-- what RFC 9000 asks for -/
 def rfcKnobs : Knobs := ⟨false, false, 0, 1⟩
